@@ -213,6 +213,19 @@ CLAIMED["C17"] = dict(
     technique="per-output translation validation decided in Coq (reflected tree equality, vm_compute) + subprocess CLI differential",
     design_ref="DESIGN.md section 5 C17")
 
+CLAIMED["C19"] = dict(
+    category="translation_validation",
+    text="Abstract definitions are built through the functional, class-based and builder Python APIs and compared - as labelled trees, by the Coq "
+         "kernel - with create_machine() of the config the definition denotes (written independently in the harness): first builds, second builds, "
+         "builds after the first result was mutated, and a second definition reusing the same State objects; by the proved reflection "
+         "(C19_tree_equality_reflects, C19_batch_certificate, C19_builds_agree) an empty answer means equal structure, hence equal behaviour for "
+         "every event sequence. Discovery: for configs with composite guards nested three deep, built-ins and spawn_ directives, providers and "
+         "modules implementing the required names (as written or in snake_case) must bind every name; removing any one name must raise "
+         "ImplementationMissingError at creation; a user action named like a built-in must be the one that runs (harness checks). The DSL at HEAD "
+         "is REFUTED where states are not identifiable by bare name (recorded finding F16).",
+    technique="per-pair translation validation decided in Coq (reflected tree equality, vm_compute) + discovery differential",
+    design_ref="DESIGN.md section 5 C19")
+
 PENDING_REASON = "not claimed yet: the check for this property is still being built in this round (DESIGN.md section 5 has the plan)"
 
 
